@@ -99,16 +99,8 @@ Proof. reflexivity. Qed.
 
 (* ---------- the invariant ---------- *)
 
-(* a link whose walk, started in directory [base] (the root for an absolute target),
-   is lexically inside the working directory *)
-Definition good_link (wd base : path) (cs : list comp) : Prop :=
-  exists m ns, cs = Ups m ++ Nms ns /\
-               inside wd (firstn (length base - m) base ++ ns) = true.
-
 Record Inv (wd : path) (f : fsys) : Prop := mkInv {
   inv_wd   : forall q r, wd = q ++ r -> q <> [] -> lookup f q = Some NDir;
-  inv_sym  : forall p d a cs, lookup f p = Some (NSym d a cs) -> inside wd p = true ->
-             good_link wd (if a then [] else removelast p) cs;
   inv_ino  : forall p q i, lookup f p = Some (NFile i) -> lookup f q = Some (NFile i) ->
              inside wd p = true -> inside wd q = true;
   inv_fresh : forall p i, lookup f p = Some (NFile i) -> i < nexti f
@@ -139,7 +131,7 @@ Definition node_ok (wd : path) (f : fsys) (p : path) (n : node) : Prop :=
   match n with
   | NDir => True
   | NFile i => exists q, inside wd q = true /\ lookup f q = Some (NFile i)
-  | NSym d a cs => good_link wd (if a then [] else removelast p) cs
+  | NSym _ _ _ => True      (* where a link points does not matter: it is never followed *)
   end.
 
 Lemma keeps_set wd f p n :
@@ -149,9 +141,6 @@ Proof.
   - constructor.
     + intros q r E Hq. rewrite lookup_set. rewrite path_eqb_neq; [eapply inv_wd; eauto|].
       eapply sinside_not_prefix; eauto.
-    + intros p0 d a cs. rewrite lookup_set. destruct (path_eqb p p0) eqn:E.
-      * apply path_eqb_spec in E. subst p0. intros [= ->] _. exact Hn.
-      * apply (inv_sym _ _ I).
     + intros p0 q0 i. rewrite !lookup_set.
       destruct (path_eqb p p0) eqn:E1; destruct (path_eqb p q0) eqn:E2.
       * apply path_eqb_spec in E2. subst q0. intros _ _ _. exact Hin.
@@ -170,8 +159,6 @@ Proof.
   - constructor.
     + intros q r E Hq. rewrite lookup_delent. rewrite path_eqb_neq; [eapply inv_wd; eauto|].
       eapply sinside_not_prefix; eauto.
-    + intros p0 d a cs. rewrite lookup_delent. destruct (path_eqb p p0); [discriminate|].
-      apply (inv_sym _ _ I).
     + intros p0 q0 i. rewrite !lookup_delent.
       destruct (path_eqb p p0); [discriminate|]. destruct (path_eqb p q0); [discriminate|].
       apply (inv_ino _ _ I).
@@ -190,7 +177,6 @@ Proof.
   intros I Hin L. split.
   - constructor.
     + exact (inv_wd _ _ I).
-    + exact (inv_sym _ _ I).
     + exact (inv_ino _ _ I).
     + exact (inv_fresh _ _ I).
   - intros q Hq. unfold view_at. rewrite lookup_setcont.
@@ -205,8 +191,6 @@ Proof.
   - constructor.
     + intros q r E Hq. rewrite lookup_newfile. rewrite path_eqb_neq; [eapply inv_wd; eauto|].
       eapply sinside_not_prefix; eauto.
-    + intros p0 d a cs. rewrite lookup_newfile. destruct (path_eqb p p0); [discriminate|].
-      apply (inv_sym _ _ I).
     + intros p0 q0 i. rewrite !lookup_newfile.
       destruct (path_eqb p p0) eqn:E1; destruct (path_eqb p q0) eqn:E2.
       * apply path_eqb_spec in E2. subst q0. intros _ _ _. exact Hin.
@@ -227,7 +211,6 @@ Proof.
   intros I Hin. split.
   - constructor.
     + exact (inv_wd _ _ I).
-    + exact (inv_sym _ _ I).
     + exact (inv_ino _ _ I).
     + exact (inv_fresh _ _ I).
   - intros q Hq. unfold view_at. rewrite lookup_setdmode.
@@ -242,42 +225,7 @@ Proof.
   eapply Keeps_trans; [exact K1|]. apply keeps_setdmode; [exact (proj1 K1) | now apply sinside_inside].
 Qed.
 
-(* ---------- kernel path resolution stays inside ---------- *)
-
-Definition compat (wd lv : path) : Prop := exists x, inside wd (lv ++ x) = true.
-
-Definition lexv (cur : path) (m : nat) (ns : list name) : path :=
-  firstn (length cur - m) cur ++ ns.
-
-Lemma lexv_nil cur : lexv cur 0 [] = cur.
-Proof. unfold lexv. rewrite Nat.sub_0_r, firstn_all, app_nil_r. reflexivity. Qed.
-
-Lemma lexv_cons cur c ns : lexv cur 0 (c :: ns) = cur ++ c :: ns.
-Proof. unfold lexv. rewrite Nat.sub_0_r, firstn_all. reflexivity. Qed.
-
-Lemma lexv_up cur m ns : lexv (removelast cur) m ns = lexv cur (S m) ns.
-Proof.
-  unfold lexv. f_equal.
-  destruct cur as [|y cur'] using rev_ind; [reflexivity|].
-  rewrite removelast_last, app_length. simpl.
-  replace (length cur' + 1 - S m) with (length cur' - m) by lia.
-  rewrite firstn_app. replace (length cur' - m - length cur') with 0 by lia.
-  simpl. rewrite app_nil_r. reflexivity.
-Qed.
-
-Lemma snoc_cases wd cur c rest :
-  inside wd (cur ++ c :: rest) = true ->
-  (exists l, wd = (cur ++ [c]) ++ l) \/ sinside wd (cur ++ [c]).
-Proof.
-  rewrite inside_spec. intros [r E].
-  apply app_eq_app in E as [l [[E1 E2]|[E1 E2]]].
-  - right. subst cur. destruct l as [|y l'].
-    + exists c, []. now rewrite app_nil_r.
-    + exists y, (l' ++ [c]). now rewrite <- app_assoc.
-  - destruct l as [|y l'].
-    + right. rewrite app_nil_r in E1. subst cur. exists c, []. reflexivity.
-    + left. injection E2 as <- _. exists l'. rewrite <- app_assoc. exact E1.
-Qed.
+(* ---------- where lexical and physical resolution agree ---------- *)
 
 Lemma inside_sinside_app wd a ns : inside wd a = true -> ns <> [] -> sinside wd (a ++ ns).
 Proof.
@@ -287,59 +235,6 @@ Proof.
   - exists y, (r' ++ n :: ns'). now rewrite <- app_assoc.
 Qed.
 
-Lemma Ups_Nms_app m ns r : (Ups m ++ Nms ns) ++ Nms r = Ups m ++ Nms (ns ++ r).
-Proof. unfold Nms. now rewrite <- app_assoc, map_app. Qed.
-
-Definition walk_post (wd : path) (f : fsys) (strict ins : bool) (w : wres) : Prop :=
-  match w with
-  | WDir p => compat wd p /\ (strict = true -> sinside wd p) /\ (ins = true -> inside wd p = true)
-  | WFile p i => sinside wd p /\ lookup f p = Some (NFile i)
-  | WSym p d a cs => sinside wd p /\ lookup f p = Some (NSym d a cs)
-  | WNoEnt p => sinside wd p /\ lookup f p = None
-  | _ => True
-  end.
-
-Lemma walk_inside wd f (I : Inv wd f) :
-  forall fuel nl cur m ns follow strict ins,
-    compat wd (lexv cur m ns) ->
-    (strict = true -> follow = false /\ sinside wd (lexv cur m ns)) ->
-    (ins = true -> inside wd (lexv cur m ns) = true) ->
-    walk_post wd f strict ins (walk fuel f nl cur (Ups m ++ Nms ns) follow).
-Proof.
-  induction fuel as [|fuel IH]; intros nl cur m ns follow strict ins Hc Hs Hi; [exact Logic.I|].
-  destruct m as [|m].
-  - destruct ns as [|c ns].
-    + simpl. rewrite lexv_nil in *. split; [exact Hc|]. split; [|exact Hi]. intro E. apply Hs in E. tauto.
-    + rewrite lexv_cons in *.
-      assert (Hstep : walk_post wd f strict ins (walk fuel f nl (cur ++ [c]) (Ups 0 ++ Nms ns) follow)).
-      { apply IH; rewrite ?lexv_nil; unfold lexv; rewrite Nat.sub_0_r, firstn_all, <- app_assoc; assumption. }
-      simpl in Hstep. simpl.
-      destruct Hc as [x Hc]. rewrite <- app_assoc in Hc. simpl in Hc.
-      apply snoc_cases in Hc as [[l Hl]|Hp].
-      * rewrite (inv_wd _ _ I _ _ Hl); [exact Hstep|]. destruct cur; discriminate.
-      * destruct (lookup f (cur ++ [c])) as [[|i|d a cs]|] eqn:L.
-        -- exact Hstep.
-        -- destruct ns; [split; assumption | exact Logic.I].
-        -- pose proof (inv_sym _ _ I _ _ _ _ L (sinside_inside _ _ Hp)) as (m' & ns2 & -> & Hg).
-           rewrite removelast_last in Hg.
-           assert (Hgo : (ns <> [] \/ follow = true) -> forall nl', walk_post wd f strict ins
-                     (walk fuel f nl' (if a then [] else cur) ((Ups m' ++ Nms ns2) ++ Nms ns) follow)).
-           { intros Hor nl'. rewrite Ups_Nms_app. apply IH.
-             - exists []. rewrite app_nil_r. unfold lexv. rewrite app_assoc. apply inside_app. exact Hg.
-             - intro E. destruct (Hs E) as [Hf _]. split; [exact Hf|].
-               unfold lexv. rewrite app_assoc. apply inside_sinside_app; [exact Hg|].
-               destruct Hor as [H|H]; [exact H | congruence].
-             - intros _. unfold lexv. rewrite app_assoc. apply inside_app. exact Hg. }
-           destruct ns as [|n ns'].
-           ++ destruct follow.
-              ** destruct nl as [|nl']; [exact Logic.I|]. apply Hgo. now right.
-              ** split; assumption.
-           ++ destruct follow; (destruct nl as [|nl']; [exact Logic.I|]; apply Hgo; left; discriminate).
-        -- destruct ns; [split; assumption | exact Logic.I].
-  - simpl. apply IH; rewrite lexv_up; assumption.
-Qed.
-
-(* ---------- where lexical and physical resolution agree ---------- *)
 
 (* no proper prefix of [ns] below [cur] that the walk reaches is a symbolic link *)
 Fixpoint lexreal (f : fsys) (cur : path) (ns : list name) : bool :=
@@ -365,23 +260,55 @@ Definition loc_is (w : wres) (q : path) : Prop :=
   | _ => True
   end.
 
-Lemma walk_lexical f : forall ns fuel nl cur,
-  lexreal f cur ns = true -> loc_is (walk fuel f nl cur (Nms ns) false) (cur ++ ns).
+Lemma walk_lex f : forall ns fuel nl cur follow,
+  lexreal f cur ns = true ->
+  (follow = true -> forall d a cs, lookup f (cur ++ ns) <> Some (NSym d a cs)) ->
+  loc_is (walk fuel f nl cur (Nms ns) follow) (cur ++ ns).
 Proof.
-  induction ns as [|c r IH]; intros fuel nl cur H; destruct fuel as [|fuel]; try exact Logic.I.
+  induction ns as [|c r IH]; intros fuel nl cur follow H Hf; destruct fuel as [|fuel]; try exact Logic.I.
   - simpl. now rewrite app_nil_r.
   - simpl. simpl in H.
     assert (Hrec : lookup f (cur ++ [c]) = Some NDir ->
-                   loc_is (walk fuel f nl (cur ++ [c]) (Nms r) false) (cur ++ c :: r)).
+                   loc_is (walk fuel f nl (cur ++ [c]) (Nms r) follow) (cur ++ c :: r)).
     { intro L. destruct r as [|c2 r'].
       - destruct fuel; simpl; [exact Logic.I | reflexivity].
-      - rewrite L in H. specialize (IH fuel nl (cur ++ [c]) H).
-        rewrite <- app_assoc in IH. exact IH. }
+      - rewrite L in H. specialize (IH fuel nl (cur ++ [c]) follow H).
+        rewrite <- app_assoc in IH. apply IH. exact Hf. }
     destruct (lookup f (cur ++ [c])) as [[|i|d a cs]|] eqn:L.
     + apply Hrec. reflexivity.
     + destruct r; simpl; [reflexivity | exact Logic.I].
-    + destruct r as [|c2 r']; simpl; [reflexivity | discriminate].
+    + destruct r as [|c2 r']; [|discriminate].
+      destruct follow; simpl; [|reflexivity].
+      exfalso. apply (Hf eq_refl d a cs). exact L.
     + destruct r; simpl; [reflexivity | exact Logic.I].
+Qed.
+
+Lemma walk_lexical f ns fuel nl cur :
+  lexreal f cur ns = true -> loc_is (walk fuel f nl cur (Nms ns) false) (cur ++ ns).
+Proof. intro H. apply walk_lex; [exact H | discriminate]. Qed.
+
+(* what a walk returns is what the tree holds there *)
+Definition res_lookup (f : fsys) (w : wres) : Prop :=
+  match w with
+  | WFile p i => lookup f p = Some (NFile i) /\ p <> []
+  | WSym p d a cs => lookup f p = Some (NSym d a cs) /\ p <> []
+  | WNoEnt p => lookup f p = None /\ p <> []
+  | _ => True
+  end.
+
+Lemma snoc_not_nil {A} (l : list A) x : l ++ [x] <> [].
+Proof. destruct l; discriminate. Qed.
+
+Lemma walk_lookup f : forall fuel nl cur rem follow, res_lookup f (walk fuel f nl cur rem follow).
+Proof.
+  induction fuel as [|fuel IH]; intros nl cur rem follow; [exact Logic.I|].
+  destruct rem as [|[|c] r]; simpl; [exact Logic.I | apply IH |].
+  destruct (lookup f (cur ++ [c])) as [[|i|d a cs]|] eqn:L.
+  - apply IH.
+  - destruct r; simpl; [split; [exact L | apply snoc_not_nil] | exact Logic.I].
+  - destruct r as [|c2 r']; destruct follow; try (destruct nl; [exact Logic.I | apply IH]).
+    simpl. split; [exact L | apply snoc_not_nil].
+  - destruct r; simpl; [split; [exact L | apply snoc_not_nil] | exact Logic.I].
 Qed.
 
 Definition RealD (f : fsys) (cur d : path) : Prop :=
@@ -441,18 +368,6 @@ Proof.
   - pose proof (walk_real f dp FUEL NLINK [] true HR) as W. unfold awalk in H.
     destruct (walk FUEL f NLINK [] (Nms dp) true); try contradiction; try discriminate.
     simpl in W. subst p. apply descend_lexreal. rewrite E. exact H.
-Qed.
-
-Lemma all_real_spec f : forall l cur, all_real f cur l = true -> RealD f cur l.
-Proof.
-  induction l as [|c l IH]; intros cur H q r E Hq.
-  - destruct q; [contradiction | discriminate].
-  - simpl in H. destruct (lookup f (cur ++ [c])) as [[|i|d a cs]|] eqn:L; try discriminate.
-    destruct q as [|y q']; [contradiction|]. injection E as <- E.
-    destruct q' as [|z q''].
-    + exact L.
-    + replace (cur ++ c :: z :: q'') with ((cur ++ [c]) ++ z :: q'') by now rewrite <- app_assoc.
-      apply (IH _ H (z :: q'') r E). discriminate.
 Qed.
 
 Lemma RealD_wd wd f l : Inv wd f -> RealD f wd l -> RealD f [] (wd ++ l).
@@ -522,150 +437,66 @@ Proof.
   rewrite Nat.sub_0_r, firstn_all in H. exact H.
 Qed.
 
-(* ---------- system calls ---------- *)
 
-Definition dirs_kept (f f' : fsys) (ex : path -> Prop) : Prop :=
-  forall q, lookup f q = Some NDir -> ~ ex q -> lookup f' q = Some NDir.
+(* ---------- system calls: every mutation is at the lexical location ---------- *)
 
-Definition nobody : path -> Prop := fun _ => False.
+Definition only_at (f f' : fsys) (fp : path) : Prop :=
+  forall q, q <> fp -> lookup f' q = lookup f q.
 
-Lemma dirs_kept_refl f ex : dirs_kept f f ex.
-Proof. intros q H _. exact H. Qed.
+Definition only_below (f f' : fsys) (cur : path) : Prop :=
+  forall q, ~ sinside cur q -> lookup f' q = lookup f q.
 
-Lemma dirs_kept_trans f g h ex : dirs_kept f g ex -> dirs_kept g h ex -> dirs_kept f h ex.
-Proof. intros A B q H N. apply B; [apply A|]; assumption. Qed.
+Lemma only_at_refl f fp : only_at f f fp.
+Proof. intros q _. reflexivity. Qed.
 
-Lemma dirs_kept_weaken f g (ex ex' : path -> Prop) :
-  (forall q, ex q -> ex' q) -> dirs_kept f g ex -> dirs_kept f g ex'.
-Proof. intros W A q H N. apply A; [exact H|]. intro E. apply N, W, E. Qed.
+Lemma only_at_trans f g h fp : only_at f g fp -> only_at g h fp -> only_at f h fp.
+Proof. intros A B q H. rewrite (B q H). apply A, H. Qed.
 
-Lemma dirs_kept_set f p n ex : lookup f p <> Some NDir -> dirs_kept f (set_ent p n f) ex.
+Lemma only_below_refl f cur : only_below f f cur.
+Proof. intros q _. reflexivity. Qed.
+
+Lemma only_below_trans f g h cur : only_below f g cur -> only_below g h cur -> only_below f h cur.
+Proof. intros A B q H. rewrite (B q H). apply A, H. Qed.
+
+Lemma only_at_below f f' dp rel : rel <> [] -> only_at f f' (dp ++ rel) -> only_below f f' dp.
 Proof.
-  intros Hp q H _. rewrite lookup_set. destruct (path_eqb p q) eqn:E; [|exact H].
-  apply path_eqb_spec in E. subst q. contradiction.
+  intros Hr A q Hq. apply A. intros ->. apply Hq.
+  destruct rel as [|x r]; [contradiction|]. exists x, r. reflexivity.
 Qed.
 
-Lemma dirs_kept_new f p c ex : lookup f p <> Some NDir -> dirs_kept f (new_file p c f) ex.
+Lemma only_below_step f f' cur c : only_below f f' (cur ++ [c]) -> only_below f f' cur.
 Proof.
-  intros Hp q H _. rewrite lookup_newfile. destruct (path_eqb p q) eqn:E; [|exact H].
-  apply path_eqb_spec in E. subst q. contradiction.
+  intros A q Hq. apply A. intros (x & r & ->). apply Hq. exists c, (x :: r). now rewrite <- app_assoc.
 Qed.
 
-Lemma dirs_kept_del f p : dirs_kept f (del_ent p f) (eq p).
+Lemma not_sinside_prefix dp q r : dp = q ++ r -> ~ sinside dp q.
 Proof.
-  intros q H N. rewrite lookup_delent. destruct (path_eqb p q) eqn:E; [|exact H].
-  apply path_eqb_spec in E. contradiction.
+  intros -> (x & t & E). apply (f_equal (@length _)) in E. rewrite !app_length in E. simpl in E. lia.
 Qed.
 
-Lemma awalk_post_gen wd f ns follow strict ins :
-  Inv wd f -> compat wd ns ->
-  (strict = true -> follow = false /\ sinside wd ns) ->
-  (ins = true -> inside wd ns = true) ->
-  walk_post wd f strict ins (awalk f ns follow).
+Lemma RealD_only_below f f' dp : RealD f [] dp -> only_below f f' dp -> RealD f' [] dp.
 Proof.
-  intros I Hc Hs Hi. unfold awalk.
-  apply (walk_inside wd f I FUEL NLINK [] 0 ns follow strict ins); unfold lexv; simpl; assumption.
+  intros H A q r E Hq. simpl. rewrite (A q); [apply (H q r E Hq)|]. eapply not_sinside_prefix; eauto.
 Qed.
 
-Lemma awalk_post wd f ns follow strict :
-  Inv wd f -> compat wd ns ->
-  (strict = true -> follow = false /\ sinside wd ns) ->
-  walk_post wd f strict false (awalk f ns follow).
-Proof. intros I Hc Hs. apply awalk_post_gen; auto. discriminate. Qed.
-
-Lemma nostrict (follow : bool) (P : Prop) : false = true -> follow = false /\ P.
-Proof. discriminate. Qed.
-
-Lemma inside_compat wd p : inside wd p = true -> compat wd p.
-Proof. intro H. exists []. now rewrite app_nil_r. Qed.
-
-Lemma Nms_snoc d c : Nms d ++ [Nm c] = Nms (d ++ [c]).
-Proof. unfold Nms. now rewrite map_app. Qed.
-
-Lemma dirs_kept_newdir f p m ex : lookup f p <> Some NDir -> dirs_kept f (new_dir p m f) ex.
-Proof. intros Hp q H N. unfold new_dir. rewrite lookup_setdmode. exact (dirs_kept_set f p NDir ex Hp q H N). Qed.
-
-Lemma mkdir_prefixes_keeps wd mo : forall t d f f',
-  Inv wd f -> compat wd (d ++ t) ->
-  mkdir_prefixes f (Nms d) (Nms t) mo = Some f' ->
-  Keeps wd f f' /\ dirs_kept f f' nobody.
+Lemma RealD_snoc f cur c : RealD f [] cur -> lookup f (cur ++ [c]) = Some NDir -> RealD f [] (cur ++ [c]).
 Proof.
-  induction t as [|c t IH]; intros d f f' I Hc H.
-  - injection H as <-. split; [now apply Keeps_refl | apply dirs_kept_refl].
-  - cbn [Nms map mkdir_prefixes] in H. fold (Nms t) in H. rewrite Nms_snoc in H.
-    assert (Hc1 : compat wd (d ++ [c])).
-    { destruct Hc as [x Hx]. exists (t ++ x). rewrite <- app_assoc in *. exact Hx. }
-    assert (Hc2 : compat wd ((d ++ [c]) ++ t)) by (rewrite <- app_assoc; exact Hc).
-    pose proof (awalk_post wd f (d ++ [c]) true false I Hc1 (nostrict _ _)) as W1.
-    pose proof (awalk_post wd f (d ++ [c]) false false I Hc1 (nostrict _ _)) as W2.
-    unfold awalk in W1, W2.
-    assert (Hcreate : match walk FUEL f NLINK [] (Nms (d ++ [c])) false with
-                      | WNoEnt p => mkdir_prefixes (new_dir p mo f) (Nms (d ++ [c])) (Nms t) mo
-                      | _ => None end = Some f' ->
-                      Keeps wd f f' /\ dirs_kept f f' nobody).
-    { destruct (walk FUEL f NLINK [] (Nms (d ++ [c])) false); try discriminate.
-      destruct W2 as [Hp Lp]. intro H2.
-      pose proof (keeps_newdir wd f p mo I Hp) as K1.
-      destruct (IH _ _ _ (proj1 K1) Hc2 H2) as [K2 D2].
-      split; [eapply Keeps_trans; eauto|].
-      eapply dirs_kept_trans; [|exact D2]. apply dirs_kept_newdir. rewrite Lp. discriminate. }
-    destruct (walk FUEL f NLINK [] (Nms (d ++ [c])) true); try (apply Hcreate; exact H).
-    + apply (IH _ _ _ I Hc2 H).
-    + discriminate.
+  intros H L q r E Hq. simpl. destruct r as [|x r'] using rev_ind.
+  - rewrite app_nil_r in E. subst q. exact L.
+  - rewrite app_assoc in E. apply app_inj_tail in E as [E _]. apply (H q r' E Hq).
 Qed.
 
-Lemma mkdir_all_keeps wd ns mo f f' :
-  Inv wd f -> compat wd ns -> mkdir_all f (Nms ns) mo = Some f' ->
-  Keeps wd f f' /\ dirs_kept f f' nobody.
-Proof. intros I Hc H. apply (mkdir_prefixes_keeps wd mo ns [] f f' I Hc H). Qed.
+Lemma RealD_prefix f dp rel : RealD f [] (dp ++ rel) -> RealD f [] dp.
+Proof. intros H q r E Hq. apply (H q (r ++ rel)); [rewrite E; now rewrite app_assoc | exact Hq]. Qed.
 
-Lemma write_at_keeps wd ns c mo f f' :
-  Inv wd f -> compat wd ns -> write_at f (Nms ns) c mo = Some f' ->
-  Keeps wd f f' /\ dirs_kept f f' nobody.
-Proof.
-  intros I Hc H. unfold write_at in H.
-  pose proof (awalk_post wd f ns true false I Hc (nostrict _ _)) as W. unfold awalk in W.
-  destruct (walk FUEL f NLINK [] (Nms ns) true); try discriminate; injection H as <-; destruct W as [Hp Lp].
-  - split; [eapply keeps_setcont; eauto using sinside_inside|]. intros q Hq _. exact Hq.
-  - split; [now apply keeps_newfile|]. apply dirs_kept_new. rewrite Lp. discriminate.
-Qed.
+Lemma RealD_inv wd f : Inv wd f -> RealD f [] wd.
+Proof. intros I q r E Hq. simpl. eapply inv_wd; eauto. Qed.
 
-Lemma chmod_at_keeps wd ns mo f f' :
-  Inv wd f -> inside wd ns = true -> chmod_at f ns mo = Some f' ->
-  Keeps wd f f' /\ dirs_kept f f' nobody.
-Proof.
-  intros I Hin H. unfold chmod_at in H.
-  pose proof (awalk_post_gen wd f ns true false true I (inside_compat _ _ Hin) (nostrict _ _) (fun _ => Hin)) as W.
-  destruct (awalk f ns true); try discriminate; injection H as <-.
-  - destruct W as (_ & _ & Hp). split; [apply keeps_setdmode; [exact I | apply Hp; reflexivity]|]. intros q Hq _. exact Hq.
-  - destruct W as [Hp Lp]. split; [exact (keeps_setcont wd f i _ p I (sinside_inside _ _ Hp) Lp)|]. intros q Hq _. exact Hq.
-Qed.
+Lemma RealD_lexreal f dp ns : RealD f [] dp -> lexreal f dp ns = true -> lexreal f [] (dp ++ ns) = true.
+Proof. intros H L. apply lexreal_app; [exact H | exact L]. Qed.
 
-Lemma chmod_if_keeps wd pres r fp mo f f' :
-  Inv wd f -> inside wd fp = true ->
-  (forall f1, r = Some f1 -> Keeps wd f f1 /\ dirs_kept f f1 nobody) ->
-  chmod_if pres r fp mo = Some f' ->
-  Keeps wd f f' /\ dirs_kept f f' nobody.
-Proof.
-  intros I Hin Hr H. unfold chmod_if in H. destruct r as [f1|]; [|discriminate].
-  destruct (Hr f1 eq_refl) as [K1 D1]. destruct pres.
-  - destruct (chmod_at_keeps wd fp mo f1 f' (proj1 K1) Hin H) as [K2 D2].
-    split; [eapply Keeps_trans; eauto | eapply dirs_kept_trans; eauto].
-  - injection H as <-. split; assumption.
-Qed.
-
-Lemma remove_at_keeps wd fp f f' :
-  Inv wd f -> sinside wd fp -> lexreal f [] fp = true -> remove_at f fp = Some f' ->
-  f' = del_ent fp f /\ Keeps wd f f' /\ dirs_kept f f' (eq fp).
-Proof.
-  intros I Hs HL H. unfold remove_at in H.
-  pose proof (walk_lexical f fp FUEL NLINK [] HL) as Wl. fold (awalk f fp false) in Wl.
-  assert (forall p, p = fp -> Some (del_ent p f) = Some f' ->
-          f' = del_ent fp f /\ Keeps wd f f' /\ dirs_kept f f' (eq fp)).
-  { intros p -> [= <-]. split; [reflexivity|]. split; [now apply keeps_del | apply dirs_kept_del]. }
-  destruct (awalk f fp false); try discriminate; simpl in Wl; try (now apply (H0 p)).
-  destruct p; [discriminate|]. destruct (has_child f (n :: p)); [discriminate|]. now apply (H0 (n :: p)).
-Qed.
+Lemma lexreal_single f cur c : lexreal f cur [c] = true.
+Proof. reflexivity. Qed.
 
 Lemma lexreal_ext f g : forall ns cur,
   (forall q r, ns = q ++ r -> q <> [] -> r <> [] -> lookup g (cur ++ q) = lookup f (cur ++ q)) ->
@@ -678,112 +509,297 @@ Proof.
   apply IH. intros q r E Hq Hr. rewrite <- !app_assoc. apply (H (c :: q) r); [now rewrite E|discriminate|exact Hr].
 Qed.
 
-Lemma do_symlink_keeps wd fp n f f' :
-  Inv wd f -> sinside wd fp -> lexreal f [] fp = true ->
-  (forall f0, node_ok wd f0 fp n) ->
-  do_symlink f fp n = Some f' ->
-  Keeps wd f f' /\ dirs_kept f f' (eq fp).
+Lemma lexreal_only_at f g fp : only_at f g fp -> lexreal g [] fp = lexreal f [] fp.
 Proof.
-  intros I Hs HL Hn H. unfold do_symlink in H.
+  intro A. apply lexreal_ext. intros q r E Hq Hr. simpl. apply A. intros ->.
+  apply (f_equal (@length _)) in E. rewrite app_length in E. destruct r; [contradiction | simpl in E; lia].
+Qed.
+
+(* a location inside that is not a directory is strictly inside *)
+Lemma inside_sinside wd f fp :
+  Inv wd f -> inside wd fp = true -> fp <> [] -> lookup f fp <> Some NDir -> sinside wd fp.
+Proof.
+  intros I Hin Hne Hl. apply inside_spec in Hin as [r ->]. destruct r as [|x r'].
+  - exfalso. rewrite app_nil_r in *. apply Hl. apply (inv_wd _ _ I wd []); [now rewrite app_nil_r | exact Hne].
+  - exists x, r'. reflexivity.
+Qed.
+
+Lemma walk_nil fuel f nl cur follow :
+  walk fuel f nl cur [] follow = WDir cur \/ walk fuel f nl cur [] follow = WErr.
+Proof. destruct fuel; simpl; auto. Qed.
+
+Lemma write_at_lex wd fp c mo f f' :
+  Inv wd f -> inside wd fp = true -> lexreal f [] fp = true ->
+  (forall d a cs, lookup f fp <> Some (NSym d a cs)) ->
+  write_at f (Nms fp) c mo = Some f' ->
+  Keeps wd f f' /\ only_at f f' fp /\ exists i, lookup f' fp = Some (NFile i).
+Proof.
+  intros I Hin HL Hns H. unfold write_at in H.
+  pose proof (walk_lex f fp FUEL NLINK [] true HL (fun _ => Hns)) as Wl.
+  pose proof (walk_lookup f FUEL NLINK [] (Nms fp) true) as Wk.
+  destruct (walk FUEL f NLINK [] (Nms fp) true); try discriminate; injection H as <-;
+    simpl in Wl; subst p; destruct Wk as [L Hne].
+  - split; [eapply keeps_setcont; eauto|]. split; [intros q _; reflexivity|]. exists i. exact L.
+  - split; [apply keeps_newfile; [exact I|]; eapply inside_sinside; eauto; rewrite L; discriminate|].
+    split.
+    + intros q Hq. rewrite lookup_newfile. rewrite path_eqb_neq; [reflexivity | congruence].
+    + exists (nexti f). rewrite lookup_newfile, path_eqb_refl. reflexivity.
+Qed.
+
+Lemma chmod_at_lex wd fp mo f f' :
+  Inv wd f -> inside wd fp = true -> lexreal f [] fp = true ->
+  (forall d a cs, lookup f fp <> Some (NSym d a cs)) ->
+  chmod_at f fp mo = Some f' ->
+  Keeps wd f f' /\ (forall q, lookup f' q = lookup f q).
+Proof.
+  intros I Hin HL Hns H. unfold chmod_at, awalk in H.
+  pose proof (walk_lex f fp FUEL NLINK [] true HL (fun _ => Hns)) as Wl.
+  pose proof (walk_lookup f FUEL NLINK [] (Nms fp) true) as Wk.
+  destruct (walk FUEL f NLINK [] (Nms fp) true); try discriminate; injection H as <-;
+    simpl in Wl; subst p.
+  - split; [now apply keeps_setdmode | intros q; reflexivity].
+  - destruct Wk as [L _]. split; [eapply keeps_setcont; eauto | intros q; reflexivity].
+Qed.
+
+Lemma remove_at_lex wd fp f f' :
+  Inv wd f -> sinside wd fp -> lexreal f [] fp = true -> remove_at f fp = Some f' ->
+  f' = del_ent fp f /\ Keeps wd f f'.
+Proof.
+  intros I Hs HL H. unfold remove_at in H.
+  pose proof (walk_lexical f fp FUEL NLINK [] HL) as Wl. fold (awalk f fp false) in Wl.
+  assert (forall p, p = fp -> Some (del_ent p f) = Some f' -> f' = del_ent fp f /\ Keeps wd f f').
+  { intros p -> [= <-]. split; [reflexivity | now apply keeps_del]. }
+  destruct (awalk f fp false); try discriminate; simpl in Wl; try (now apply (H0 p)).
+  destruct p; [discriminate|]. destruct (has_child f (n :: p)); [discriminate|]. now apply (H0 (n :: p)).
+Qed.
+
+Lemma only_at_del f fp : only_at f (del_ent fp f) fp.
+Proof. intros q Hq. rewrite lookup_delent, path_eqb_neq; [reflexivity | congruence]. Qed.
+
+Lemma only_at_set f fp n : only_at f (set_ent fp n f) fp.
+Proof. intros q Hq. rewrite lookup_set, path_eqb_neq; [reflexivity | congruence]. Qed.
+
+Lemma remove_at_nil f : remove_at f [] = None.
+Proof.
+  unfold remove_at, awalk, Nms. cbn [map]. destruct (walk_nil FUEL f NLINK [] false) as [E|E]; rewrite E; reflexivity.
+Qed.
+
+Lemma unlink_if_lex wd fp f f' :
+  Inv wd f -> inside wd fp = true -> lexreal f [] fp = true ->
+  unlink_if_symlink f fp = Some f' ->
+  Keeps wd f f' /\ only_at f f' fp /\ (forall d a cs, lookup f' fp <> Some (NSym d a cs)).
+Proof.
+  intros I Hin HL H. unfold unlink_if_symlink in H.
+  destruct (lookup f fp) as [[|i|d a cs]|] eqn:L;
+    try (injection H as <-; split; [now apply Keeps_refl|]; split; [apply only_at_refl|];
+         intros d0 a0 cs0; rewrite L; discriminate).
+  destruct fp as [|x fp']; [rewrite remove_at_nil in H; discriminate|].
+  assert (Hs : sinside wd (x :: fp')).
+  { eapply inside_sinside; eauto; [discriminate | rewrite L; discriminate]. }
+  destruct (remove_at_lex wd _ f f' I Hs HL H) as [-> K].
+  split; [exact K|]. split; [apply only_at_del|].
+  intros d0 a0 cs0. rewrite lookup_delent, path_eqb_refl. discriminate.
+Qed.
+
+Lemma do_symlink_lex wd fp d a cs f f' :
+  Inv wd f -> sinside wd fp -> lexreal f [] fp = true ->
+  do_symlink f fp (NSym d a cs) = Some f' ->
+  Keeps wd f f' /\ only_at f f' fp.
+Proof.
+  intros I Hs HL H. unfold do_symlink in H.
   pose proof (walk_lexical f fp FUEL NLINK [] HL) as Wl. fold (awalk f fp false) in Wl.
   assert (Hretry : match remove_at f fp with
                    | None => None
-                   | Some f1 => match awalk f1 fp false with WNoEnt q => Some (set_ent q n f1) | _ => None end
-                   end = Some f' -> Keeps wd f f' /\ dirs_kept f f' (eq fp)).
+                   | Some f1 => match awalk f1 fp false with WNoEnt q => Some (set_ent q (NSym d a cs) f1) | _ => None end
+                   end = Some f' -> Keeps wd f f' /\ only_at f f' fp).
   { destruct (remove_at f fp) as [f1|] eqn:R; [|discriminate].
-    destruct (remove_at_keeps wd fp f f1 I Hs HL R) as (E1 & K1 & D1).
+    destruct (remove_at_lex wd fp f f1 I Hs HL R) as (E1 & K1). clear R. subst f1.
+    set (f1 := del_ent fp f) in *.
     assert (HL1 : lexreal f1 [] fp = true).
-    { rewrite <- HL. apply lexreal_ext. intros q r E Hq Hr. subst f1. simpl. rewrite lookup_delent.
-      rewrite path_eqb_neq; [reflexivity|]. intros ->. apply (f_equal (@length _)) in E.
-      rewrite app_length in E. destruct r; [contradiction|simpl in E; lia]. }
+    { rewrite <- HL. apply lexreal_only_at. apply only_at_del. }
     pose proof (walk_lexical f1 fp FUEL NLINK [] HL1) as Wl1. fold (awalk f1 fp false) in Wl1.
     destruct (awalk f1 fp false); try discriminate. simpl in Wl1. subst p. intros [= <-].
-    pose proof (keeps_set wd f1 fp n (proj1 K1) Hs (Hn f1)) as K2.
+    pose proof (keeps_set wd f1 fp (NSym d a cs) (proj1 K1) Hs Logic.I) as K2.
     split; [eapply Keeps_trans; eauto|].
-    intros q Hq Nq. rewrite lookup_set. rewrite path_eqb_neq by exact Nq. apply D1; assumption. }
-  pose proof (awalk_post wd f fp false false I (inside_compat _ _ (sinside_inside _ _ Hs)) (nostrict _ _)) as W.
+    eapply only_at_trans; [apply only_at_del | apply only_at_set]. }
   destruct (awalk f fp false); try discriminate; try (apply Hretry; exact H).
-  simpl in Wl. subst p. injection H as <-. destruct W as [_ Lp].
-  split; [apply keeps_set; auto|]. apply dirs_kept_set. rewrite Lp. discriminate.
+  simpl in Wl. subst p. injection H as <-.
+  split; [apply keeps_set; auto; exact Logic.I | apply only_at_set].
 Qed.
 
-Lemma do_link_keeps wd cwd fp pn tgt f f' :
-  Inv wd f -> compat wd fp -> inside wd pn = true ->
+Lemma do_link_lex wd cwd fp pn tgt f f' :
+  Inv wd f -> inside wd fp = true -> lexreal f [] fp = true ->
+  inside wd pn = true -> lexreal f [] pn = true ->
   do_link cfg_fixed f cwd fp pn tgt = Some f' ->
-  Keeps wd f f' /\ dirs_kept f f' nobody.
+  Keeps wd f f' /\ only_at f f' fp.
 Proof.
-  intros I Hc Hpn H. unfold do_link in H. cbn [fixH fixS cfg_fixed] in H.
-  pose proof (awalk_post wd f pn false false I (inside_compat _ _ Hpn) (nostrict _ _)) as W.
-  pose proof (awalk_post wd f fp false false I Hc (nostrict _ _)) as W2.
+  intros I Hfp HLfp Hpn HLpn H. unfold do_link in H. cbn [fixH cfg_fixed] in H.
+  pose proof (walk_lexical f pn FUEL NLINK [] HLpn) as Wo. fold (awalk f pn false) in Wo.
+  pose proof (walk_lookup f FUEL NLINK [] (Nms pn) false) as Ko. fold (awalk f pn false) in Ko.
+  pose proof (walk_lexical f fp FUEL NLINK [] HLfp) as Wn. fold (awalk f fp false) in Wn.
+  pose proof (walk_lookup f FUEL NLINK [] (Nms fp) false) as Kn. fold (awalk f fp false) in Kn.
   destruct tgt as [|t0 tgt']; [discriminate|].
-  destruct (awalk f pn false); try discriminate.
-  destruct W as [Hp Lp].
-  destruct (awalk f fp false); try discriminate. injection H as <-. destruct W2 as [Hq Lq].
-  split.
-  - apply keeps_set; auto. exists p. split; [now apply sinside_inside | exact Lp].
-  - apply dirs_kept_set. rewrite Lq. discriminate.
+  assert (Hnew : forall n, node_ok wd f fp n ->
+            match awalk f fp false with WNoEnt q => Some (set_ent q n f) | _ => None end = Some f' ->
+            Keeps wd f f' /\ only_at f f' fp).
+  { intros n Hn H2. destruct (awalk f fp false); try discriminate. simpl in Wn. subst p.
+    destruct Kn as [Ln Hne]. injection H2 as <-.
+    split; [|apply only_at_set]. apply keeps_set; auto.
+    eapply inside_sinside; eauto. rewrite Ln. discriminate. }
+  destruct (awalk f pn false); try discriminate; simpl in Wo; subst p; destruct Ko as [Lo _].
+  - apply (Hnew (NFile i)); [|exact H]. exists pn. split; assumption.
+  - apply (Hnew (NSym d a cs)); [exact Logic.I | exact H].
+Qed.
+
+Lemma Nms_snoc d c : Nms d ++ [Nm c] = Nms (d ++ [c]).
+Proof. unfold Nms. now rewrite map_app. Qed.
+
+(* os.MkdirAll of a path whose elements all exist as directories changes nothing *)
+Lemma mkdir_prefixes_noop f mo : forall t d f',
+  RealD f [] (d ++ t) -> mkdir_prefixes f (Nms d) (Nms t) mo = Some f' -> f' = f.
+Proof.
+  induction t as [|c t IH]; intros d f' HR H.
+  - now injection H as <-.
+  - cbn [Nms map mkdir_prefixes] in H. fold (Nms t) in H. rewrite Nms_snoc in H.
+    assert (HR1 : RealD f [] (d ++ [c])).
+    { apply (RealD_prefix f (d ++ [c]) t). now rewrite <- app_assoc. }
+    pose proof (walk_real f (d ++ [c]) FUEL NLINK [] true HR1) as W1.
+    pose proof (walk_real f (d ++ [c]) FUEL NLINK [] false HR1) as W2.
+    destruct (walk FUEL f NLINK [] (Nms (d ++ [c])) true); try contradiction.
+    + apply (IH (d ++ [c]) f'); [now rewrite <- app_assoc | exact H].
+    + destruct (walk FUEL f NLINK [] (Nms (d ++ [c])) false); try contradiction; discriminate.
+Qed.
+
+(* ensureDirNoSymlink *)
+Lemma mkdir_real_lex wd mo : forall qs cur f f',
+  Inv wd f -> inside wd cur = true -> RealD f [] cur ->
+  mkdir_real f cur qs mo = Some f' ->
+  Keeps wd f f' /\ RealD f' [] (cur ++ qs) /\ only_below f f' cur.
+Proof.
+  induction qs as [|c r IH]; intros cur f f' I Hin HR H.
+  - injection H as <-. rewrite app_nil_r. split; [now apply Keeps_refl|]. split; [exact HR | apply only_below_refl].
+  - cbn [mkdir_real] in H.
+    assert (Hin' : inside wd (cur ++ [c]) = true) by now apply inside_app.
+    destruct (lookup f (cur ++ [c])) as [[|i|d a cs]|] eqn:L; try discriminate.
+    + destruct (IH (cur ++ [c]) f f' I Hin' (RealD_snoc _ _ _ HR L) H) as (K & R & O).
+      rewrite <- app_assoc in R. split; [exact K|]. split; [exact R | exact (only_below_step _ _ _ c O)].
+    + assert (HL : lexreal f [] (cur ++ [c]) = true) by (apply RealD_lexreal; [exact HR | reflexivity]).
+      pose proof (walk_lexical f (cur ++ [c]) FUEL NLINK [] HL) as Wl. fold (awalk f (cur ++ [c]) false) in Wl.
+      destruct (awalk f (cur ++ [c]) false); try discriminate. simpl in Wl. subst p.
+      assert (Hs : sinside wd (cur ++ [c])) by (apply inside_sinside_app; [exact Hin | discriminate]).
+      pose proof (keeps_newdir wd f (cur ++ [c]) mo I Hs) as K1.
+      assert (O1 : only_at f (new_dir (cur ++ [c]) mo f) (cur ++ [c])).
+      { intros q Hq. unfold new_dir. rewrite lookup_setdmode. now apply only_at_set. }
+      assert (HR1 : RealD (new_dir (cur ++ [c]) mo f) [] (cur ++ [c])).
+      { apply RealD_snoc.
+        - intros q t E Hq. simpl. rewrite O1; [apply (HR q t E Hq)|].
+          intros ->. apply (f_equal (@length _)) in E. rewrite !app_length in E. simpl in E. lia.
+        - unfold new_dir. rewrite lookup_setdmode, lookup_set, path_eqb_refl. reflexivity. }
+      destruct (IH (cur ++ [c]) _ f' (proj1 K1) Hin' HR1 H) as (K & R & O).
+      rewrite <- app_assoc in R. split; [eapply Keeps_trans; eauto|]. split; [exact R|].
+      eapply only_below_trans; [|exact (only_below_step _ _ _ c O)].
+      apply (only_at_below f _ cur [c]); [discriminate | exact O1].
+Qed.
+
+(* os.Chmod of a real directory *)
+Lemma chmod_at_real wd fp mo f f' :
+  Inv wd f -> inside wd fp = true -> RealD f [] fp -> chmod_at f fp mo = Some f' ->
+  Keeps wd f f' /\ (forall q, lookup f' q = lookup f q).
+Proof.
+  intros I Hin HR H. unfold chmod_at, awalk in H.
+  pose proof (walk_real f fp FUEL NLINK [] true HR) as W.
+  destruct (walk FUEL f NLINK [] (Nms fp) true); try contradiction; try discriminate.
+  simpl in W. subst p. injection H as <-. split; [now apply keeps_setdmode | intros q; reflexivity].
+Qed.
+
+Lemma write_at_real f fp c mo : RealD f [] fp -> write_at f (Nms fp) c mo = None.
+Proof.
+  intro HR. unfold write_at. pose proof (walk_real f fp FUEL NLINK [] true HR) as W.
+  destruct (walk FUEL f NLINK [] (Nms fp) true); try contradiction; reflexivity.
 Qed.
 
 (* ---------- extraction ---------- *)
 
-Lemma ensure_link_inside wd f dp fp tgt pn :
-  inside wd dp = true -> ensure_link f dp fp tgt = Some pn ->
-  pn = link_abs_path fp tgt /\ inside wd pn = true.
+Lemma ensure_link_lex wd f dp fp tgt pn :
+  inside wd dp = true -> RealD f [] dp -> ensure_link f dp fp tgt = Some pn ->
+  inside wd pn = true /\ lexreal f [] pn = true.
 Proof.
-  intros Hd H. unfold ensure_link in H.
+  intros Hd HR H. unfold ensure_link in H.
   destruct (strip_prefix dp (link_abs_path fp tgt)) as [ns|] eqn:E; [|discriminate].
-  destruct (parents_ok f dp ns); [|discriminate]. injection H as <-.
-  split; [reflexivity|]. apply strip_prefix_spec in E. rewrite E. now apply inside_app.
+  destruct (parents_ok f dp ns) eqn:PO; [|discriminate]. injection H as <-.
+  apply strip_prefix_spec in E. rewrite E. split; [now apply inside_app|].
+  apply RealD_lexreal; [exact HR | now apply parents_ok_lexreal].
 Qed.
 
-Lemma sym_node_ok wd fp tgt :
-  inside wd (link_abs_path fp tgt) = true ->
-  forall f0 : fsys, node_ok wd f0 fp (sym_node cfg_fixed tgt).
+Lemma unlink_if_real f dp f0 : RealD f [] dp -> unlink_if_symlink f dp = Some f0 -> f0 = f.
 Proof.
-  intros H f0. unfold sym_node, node_ok. cbn [fixC cfg_fixed].
-  unfold link_abs_path in H. unfold clean_str. destruct (is_abs tgt).
-  - exists 0, (clean_abs (comps_of tgt)). split; [reflexivity|]. simpl. exact H.
-  - exists (fst (clean_rel (comps_of tgt))), (snd (clean_rel (comps_of tgt))).
-    split; [reflexivity|]. rewrite clean_abs_join in H. exact H.
+  intros HR H. unfold unlink_if_symlink in H. destruct dp as [|x d'].
+  - destruct (lookup f []) as [[|i|d a cs]|]; try (now injection H as <-).
+    rewrite remove_at_nil in H. discriminate.
+  - pose proof (HR (x :: d') []) as L. simpl in L. rewrite L in H; [now injection H as <- | now rewrite app_nil_r | discriminate].
 Qed.
 
-Lemma RealD_kept f f' dp (ex : path -> Prop) :
-  RealD f [] dp -> dirs_kept f f' ex ->
-  (forall q r, dp = q ++ r -> ~ ex q) -> RealD f' [] dp.
-Proof. intros H D N q r E Hq. simpl. apply D; [apply (H q r E Hq) | apply (N q r E)]. Qed.
+Lemma RealD_same f f' dp : (forall q, lookup f' q = lookup f q) -> RealD f [] dp -> RealD f' [] dp.
+Proof. intros S H q r E Hq. rewrite S. apply (H q r E Hq). Qed.
 
 Lemma extract_entry_keeps wd pres cwd dp dirName f e f' :
   Inv wd f -> inside wd dp = true -> RealD f [] dp ->
   extract_entry cfg_fixed pres cwd dp dirName f e = Some f' ->
   Keeps wd f f' /\ RealD f' [] dp.
 Proof.
-  intros I Hd HR H. unfold extract_entry, resolve_rel in H. cbn [fixR cfg_fixed] in H.
+  intros I Hd HR H. unfold extract_entry, resolve_rel in H. cbn [fixR fixN fixW cfg_fixed] in H.
   destruct (entry_rel dp dirName (entry_name e)) as [rel|] eqn:ER; [|discriminate].
   destruct (parents_ok f dp rel) eqn:PO; [|discriminate].
   assert (Hfp : inside wd (dp ++ rel) = true) by now apply inside_app.
   assert (HL : lexreal f [] (dp ++ rel) = true).
-  { apply lexreal_app; [exact HR|]. simpl. now apply parents_ok_lexreal. }
-  assert (Hnob : forall g, Keeps wd f g /\ dirs_kept f g nobody -> Keeps wd f g /\ RealD g [] dp).
-  { intros g [K D]. split; [exact K|]. eapply RealD_kept; [exact HR | exact D | intros q r _ []]. }
+  { apply RealD_lexreal; [exact HR | now apply parents_ok_lexreal]. }
+  assert (Hat : forall g, rel <> [] -> Keeps wd f g -> only_at f g (dp ++ rel) -> Keeps wd f g /\ RealD g [] dp).
+  { intros g Hr K O. split; [exact K|]. eapply RealD_only_below; [exact HR|]. eapply only_at_below; eauto. }
   destruct e as [nm c mo|nm mo|nm tgt|nm tgt|nm]; cbn [entry_name] in *.
-  - apply Hnob. apply (chmod_if_keeps wd pres (write_at f (Nms (dp ++ rel)) c mo) (dp ++ rel) mo f f' I Hfp); [|exact H].
-    intros f1 E1. apply (write_at_keeps wd (dp ++ rel) c mo f f1 I (inside_compat _ _ Hfp) E1).
-  - apply Hnob. apply (chmod_if_keeps wd pres (mkdir_all f (Nms (dp ++ rel)) mo) (dp ++ rel) mo f f' I Hfp); [|exact H].
-    intros f1 E1. apply (mkdir_all_keeps wd (dp ++ rel) mo f f1 I (inside_compat _ _ Hfp) E1).
-  - destruct rel as [|r0 rel']; [discriminate|]. set (rel := r0 :: rel') in *.
+  - (* regular file *)
+    destruct rel as [|r0 rel'].
+    + rewrite app_nil_r in H.
+      destruct (unlink_if_symlink f dp) as [f0|] eqn:U; [|discriminate].
+      apply (unlink_if_real _ _ _ HR) in U. subst f0.
+      rewrite (write_at_real f dp c mo HR) in H. discriminate.
+    + set (rel := r0 :: rel') in *. set (fp := dp ++ rel) in *.
+      destruct (unlink_if_symlink f fp) as [f0|] eqn:U; [|discriminate].
+      destruct (unlink_if_lex wd fp f f0 I Hfp HL U) as (K0 & O0 & N0).
+      assert (HL0 : lexreal f0 [] fp = true) by (rewrite (lexreal_only_at _ _ _ O0); exact HL).
+      unfold chmod_if in H.
+      destruct (write_at f0 (Nms fp) c mo) as [f1|] eqn:Wr; [|discriminate].
+      destruct (write_at_lex wd fp c mo f0 f1 (proj1 K0) Hfp HL0 N0 Wr) as (K1 & O1 & (i & L1)).
+      assert (K01 : Keeps wd f f1) by (eapply Keeps_trans; eauto).
+      assert (O01 : only_at f f1 fp) by (eapply only_at_trans; eauto).
+      destruct pres.
+      * assert (HL1 : lexreal f1 [] fp = true) by (rewrite (lexreal_only_at _ _ _ O1); exact HL0).
+        assert (N1 : forall d a cs, lookup f1 fp <> Some (NSym d a cs)) by (intros; rewrite L1; discriminate).
+        destruct (chmod_at_lex wd fp mo f1 f' (proj1 K1) Hfp HL1 N1 H) as (K2 & S2).
+        apply Hat; [discriminate | eapply Keeps_trans; eauto|].
+        intros q Hq. rewrite S2. now apply O01.
+      * injection H as <-. apply Hat; [discriminate | exact K01 | exact O01].
+  - (* directory *)
+    unfold chmod_if in H.
+    destruct (mkdir_real f dp rel mo) as [f1|] eqn:M; [|discriminate].
+    destruct (mkdir_real_lex wd mo rel dp f f1 I Hd HR M) as (K1 & R1 & O1).
+    destruct pres.
+    + destruct (chmod_at_real wd (dp ++ rel) mo f1 f' (proj1 K1) Hfp R1 H) as (K2 & S2).
+      split; [eapply Keeps_trans; eauto|]. apply (RealD_same f1); [exact S2|]. eapply RealD_prefix; eauto.
+    + injection H as <-. split; [exact K1 | eapply RealD_prefix; eauto].
+  - (* hard link *)
+    destruct rel as [|r0 rel']; [discriminate|]. set (rel := r0 :: rel') in *.
     destruct (ensure_link f dp (dp ++ rel) tgt) as [pn|] eqn:EL; [|discriminate].
-    destruct (ensure_link_inside _ _ _ _ _ _ Hd EL) as [_ Hpn].
-    apply Hnob. apply (do_link_keeps wd cwd (dp ++ rel) pn tgt f f' I (inside_compat _ _ Hfp) Hpn H).
-  - destruct rel as [|r0 rel']; [discriminate|]. set (rel := r0 :: rel') in *.
+    destruct (ensure_link_lex _ _ _ _ _ _ Hd HR EL) as [Hpn HLpn].
+    destruct (do_link_lex wd cwd (dp ++ rel) pn tgt f f' I Hfp HL Hpn HLpn H) as [K O].
+    apply Hat; [discriminate | exact K | exact O].
+  - (* symbolic link: created with the raw target *)
+    destruct rel as [|r0 rel']; [discriminate|]. set (rel := r0 :: rel') in *.
     destruct (ensure_link f dp (dp ++ rel) tgt) as [pn|] eqn:EL; [|discriminate].
-    destruct (ensure_link_inside _ _ _ _ _ _ Hd EL) as [-> Hpn].
     destruct tgt as [|t0 tgt']; [discriminate|].
-    assert (Hrel : rel <> []) by discriminate.
-    assert (Hs : sinside wd (dp ++ rel)) by (apply inside_sinside_app; assumption).
-    destruct (do_symlink_keeps wd (dp ++ rel) _ f f' I Hs HL (sym_node_ok wd _ _ Hpn) H) as [K D].
-    split; [exact K|]. eapply RealD_kept; eauto.
-    intros q r E <-. apply (f_equal (@length _)) in E. rewrite !app_length in E.
-    subst rel. simpl in E. lia.
+    assert (Hs : sinside wd (dp ++ rel)) by (apply inside_sinside_app; [exact Hd | discriminate]).
+    unfold sym_node in H.
+    destruct (do_symlink_lex wd (dp ++ rel) _ _ _ f f' I Hs HL H) as [K O].
+    apply Hat; [discriminate | exact K | exact O].
   - injection H as <-. split; [now apply Keeps_refl | exact HR].
 Qed.
 
@@ -809,11 +825,22 @@ Proof. induction l as [|a [|a' l'] IH]; try reflexivity. cbn [map removelast] in
 Lemma removelast_Nms l : removelast (Nms l) = Nms (removelast l).
 Proof. apply removelast_map. Qed.
 
-Lemma compat_removelast wd l : inside wd l = true -> compat wd (removelast l).
+Lemma lexreal_of_parent f cl : RealD f [] (removelast cl) -> lexreal f [] cl = true.
 Proof.
-  intro H. destruct l as [|a l'] using rev_ind.
-  - exists []. exact H.
-  - rewrite removelast_last. exists [a]. exact H.
+  destruct cl as [|x l] using rev_ind; [reflexivity|].
+  rewrite removelast_last. intro HR. apply RealD_lexreal; [exact HR | reflexivity].
+Qed.
+
+(* the directory of a title that is inside the working directory but not below it: the
+   title denotes the working directory itself *)
+Lemma parent_outside wd cl :
+  inside wd cl = true -> strip_prefix wd (removelast cl) = None -> cl = wd /\ wd <> [].
+Proof.
+  intros Hin SP. apply inside_spec in Hin as [r ->]. destruct r as [|x r'].
+  - rewrite app_nil_r in *. split; [reflexivity|]. intros ->. discriminate.
+  - exfalso. rewrite removelast_app in SP by discriminate.
+    assert (E : strip_prefix wd (wd ++ removelast (x :: r')) = Some (removelast (x :: r'))) by now apply strip_prefix_spec.
+    congruence.
 Qed.
 
 Lemma push_keeps wd pres cwd s o s' ok :
@@ -834,30 +861,50 @@ Proof.
     match type of EW with (if inside wd ?c then _ else _) = _ => destruct (inside wd c) eqn:Ein; [|discriminate] end.
     injection EW as <-. eexists. split; [reflexivity | exact Ein]. }
   destruct Hraw as (cl & -> & Hcl).
+  cbn [fixN fixW cfg_fixed] in H.
+  pose proof (RealD_inv _ _ I) as HRwd.
   destruct o as [t c|t es]; cbn [push_title] in *.
-  - rewrite removelast_Nms, clean_abs_names in H.
-    destruct (mkdir_all (st_fs s) (Nms (removelast cl)) 511) as [f1|] eqn:M.
-    2:{ injection H as <- _. now apply Keeps_refl. }
-    destruct (mkdir_all_keeps wd _ _ _ _ I (compat_removelast _ _ Hcl) M) as [K1 _].
-    destruct (write_at f1 (Nms cl) c 438) as [f2|] eqn:Wr.
-    + injection H as <- _. simpl. eapply Keeps_trans; [exact K1|].
-      eapply write_at_keeps; eauto using inside_compat. exact (proj1 K1).
-    + injection H as <- _. exact K1.
-  - rewrite clean_abs_names in H. cbn [fixD cfg_fixed] in H.
-    destruct (mkdir_all (st_fs s) (Nms cl) 511) as [f1|] eqn:M.
-    2:{ injection H as <- _. now apply Keeps_refl. }
-    destruct (mkdir_all_keeps wd _ _ _ _ I (inside_compat _ _ Hcl) M) as [K1 _].
+  - rewrite removelast_Nms, !clean_abs_names in H.
+    destruct (strip_prefix wd (removelast cl)) as [rel|] eqn:SP.
+    + apply strip_prefix_spec in SP.
+      destruct (mkdir_real (st_fs s) wd rel 511) as [f1|] eqn:M.
+      2:{ injection H as <- _. now apply Keeps_refl. }
+      destruct (mkdir_real_lex wd 511 rel wd _ f1 I (inside_refl wd) HRwd M) as (K1 & R1 & _).
+      rewrite <- SP in R1.
+      pose proof (lexreal_of_parent _ _ R1) as HL1.
+      destruct (unlink_if_symlink f1 cl) as [f1'|] eqn:U.
+      2:{ injection H as <- _. exact K1. }
+      destruct (unlink_if_lex wd cl f1 f1' (proj1 K1) Hcl HL1 U) as (K2 & O2 & N2).
+      assert (K12 : Keeps wd (st_fs s) f1') by (eapply Keeps_trans; eauto).
+      assert (HL2 : lexreal f1' [] cl = true) by (rewrite (lexreal_only_at _ _ _ O2); exact HL1).
+      destruct (write_at f1' (Nms cl) c 438) as [f2|] eqn:Wr.
+      * injection H as <- _. simpl.
+        destruct (write_at_lex wd cl c 438 f1' f2 (proj1 K2) Hcl HL2 N2 Wr) as (K3 & _).
+        eapply Keeps_trans; eauto.
+      * injection H as <- _. exact K12.
+    + destruct (parent_outside wd cl Hcl SP) as [-> Hwd].
+      assert (HRp : RealD (st_fs s) [] (removelast wd)).
+      { apply (RealD_prefix _ (removelast wd) [last wd []]). rewrite <- app_removelast_last by exact Hwd. exact HRwd. }
+      destruct (mkdir_all (st_fs s) (Nms (removelast wd)) 511) as [f1|] eqn:M.
+      2:{ injection H as <- _. now apply Keeps_refl. }
+      unfold mkdir_all in M.
+      apply (mkdir_prefixes_noop (st_fs s) 511 (removelast wd) [] f1 HRp) in M. subst f1.
+      destruct (unlink_if_symlink (st_fs s) wd) as [f1'|] eqn:U.
+      2:{ injection H as <- _. now apply Keeps_refl. }
+      apply (unlink_if_real _ _ _ HRwd) in U. subst f1'.
+      rewrite (write_at_real _ wd c 438 HRwd) in H. injection H as <- _. now apply Keeps_refl.
+  - rewrite clean_abs_names in H.
     destruct (strip_prefix wd cl) as [rel|] eqn:SP.
-    2:{ injection H as <- _. exact K1. }
-    destruct (all_real f1 wd rel) eqn:AR.
-    2:{ injection H as <- _. exact K1. }
-    cbn [negb] in H.
+    2:{ unfold inside in Hcl. rewrite SP in Hcl. discriminate. }
+    apply strip_prefix_spec in SP.
+    destruct (mkdir_real (st_fs s) wd rel 511) as [f1|] eqn:M.
+    2:{ injection H as <- _. now apply Keeps_refl. }
+    destruct (mkdir_real_lex wd 511 rel wd _ f1 I (inside_refl wd) HRwd M) as (K1 & R1 & _).
+    rewrite <- SP in R1.
     destruct (extract cfg_fixed pres cwd cl t f1 es) as [f2 ok2] eqn:EX.
     injection H as <- _. simpl.
     eapply Keeps_trans; [exact K1|].
-    apply strip_prefix_spec in SP. subst cl.
     eapply extract_keeps; eauto. exact (proj1 K1).
-    apply RealD_wd; [exact (proj1 K1)|]. now apply all_real_spec.
 Qed.
 
 Lemma pushes_keeps wd pres cwd : forall os s s' oks,
@@ -952,10 +999,6 @@ Proof.
     + injection E as <- _. reflexivity.
     + injection E as <- <- _. reflexivity.
     + apply (f_equal (@length _)) in E. simpl in E. rewrite app_length in E. lia.
-  - intros p d a cs H. unfold lookup, fs0 in H. cbn [ents lookup_ents] in H.
-    repeat match type of H with
-           | (if ?c then _ else _) = _ => destruct c; [discriminate|]
-           end. discriminate.
   - intros p q i Hp Hq. unfold lookup, fs0 in Hp, Hq. cbn [ents lookup_ents] in Hp, Hq.
     repeat match type of Hp with
            | (if path_eqb ?k p then _ else _) = _ =>
@@ -987,36 +1030,44 @@ Ltac escape_with os p :=
 (* F10: hard link whose relative target is taken from the process's current directory *)
 Definition os_hardlink_cwd : list pushop :=
   [PDir (b "t") [EHard (b "t/h") (b "secret"); EReg (b "t/h") 7%N 420%N]].
-Lemma refuted_hardlink_cwd : escapes (mkCfg false true true true true true).
+Lemma refuted_hardlink_cwd : escapes (mkCfg false true true true true).
 Proof. escape_with os_hardlink_cwd [b "c"; b "secret"]. Qed.
 
-(* F11: link created with the raw target *)
+(* F11: the raw link target is lexically inside and physically outside; a regular entry (or a
+   named blob) is written through the link *)
 Definition os_raw_target : list pushop :=
   [PDir (b "t") [EDir (b "t/a/b") 493%N; ESym (b "t/a/b/s") (b "../..");
                  ESym (b "t/l") (b "a/b/s/../../../victim"); EReg (b "t/l") 7%N 420%N]].
-Lemma refuted_raw_target : escapes (mkCfg true false true true true true).
+Definition os_raw_target_blob : list pushop :=
+  [PDir (b "t") [EDir (b "t/a/b") 493%N; ESym (b "t/a/b/s") (b "../..");
+                 ESym (b "t/l") (b "a/b/s/../../../victim")];
+   PBlob (b "t/l") 7%N].
+Lemma refuted_write_through_link : escapes (mkCfg true true true true false).
 Proof. escape_with os_raw_target [b "victim"]. Qed.
+Lemma refuted_blob_through_link : escapes (mkCfg true true true true false).
+Proof. escape_with os_raw_target_blob [b "victim"]. Qed.
 
-(* unpack directory reached through a link created by the store *)
+(* directories created / entered through a link: unpack directory reached through a link
+   created by the store *)
 Definition os_title_through_link : list pushop :=
   [PDir (b ".") [ESym (b "./x") (b ".")];
    PDir (b "x") [ESym (b "x/l") (b "../x/victim"); EReg (b "x/l") 7%N 420%N]].
-Lemma refuted_title_through_link : escapes (mkCfg true true false true true true).
+Lemma refuted_title_through_link : escapes (mkCfg true true true false false).
 Proof. escape_with os_title_through_link [b "r"; b "x"; b "victim"]. Qed.
+
+(* named blob below a link (here a hard link to a link, which sits at another depth) *)
+Definition os_hardlink_symlink : list pushop :=
+  [PDir (b "t") [EDir (b "t/b/c") 493%N; ESym (b "t/b/c/s") (b "../.."); EHard (b "t/h") (b "b/c/s")];
+   PBlob (b "t/h/victim") 7%N].
+Lemma refuted_dir_through_link : escapes (mkCfg true true true false true).
+Proof. escape_with os_hardlink_symlink [b "r"; b "victim"]. Qed.
 
 (* absolute title used raw: ".." after a store link *)
 Definition os_abs_title : list pushop :=
   [PDir (b "t") [EDir (b "t/b") 493%N; ESym (b "t/b/s") (b "..")];
    PBlob (b "/r/w/t/b/s/../../../victim") 7%N].
-Lemma refuted_abs_title : escapes (mkCfg true true true false true true).
+Lemma refuted_abs_title : escapes (mkCfg true false true true true).
 Proof. escape_with os_abs_title [b "victim"]. Qed.
-
-(* hard link to a symbolic link *)
-Definition os_hardlink_symlink : list pushop :=
-  [PDir (b "t") [EDir (b "t/b/c") 493%N; ESym (b "t/b/c/s") (b "../.."); EHard (b "t/h") (b "b/c/s")];
-   PBlob (b "t/h/victim") 7%N].
-Lemma refuted_hardlink_symlink : escapes (mkCfg true true true true false true).
-Proof. escape_with os_hardlink_symlink [b "r"; b "victim"]. Qed.
 
 Lemma prefix_escapes : escapes cfg_prefix.
 Proof. escape_with os_hardlink_cwd [b "c"; b "secret"]. Qed.
@@ -1025,12 +1076,14 @@ Proof. escape_with os_hardlink_cwd [b "c"; b "secret"]. Qed.
 Definition os_ordinary : list pushop :=
   [PDir (b "t") [EDir (b "t/a/b") 493%N; EReg (b "t/a/b/f") 7%N 384%N; ESym (b "t/a/b/s") (b "../..");
                  ESym (b "t/l") (b "a/b/s/../x"); EHard (b "t/h") (b "a/b/f"); EReg (b "t/h") 8%N 420%N;
-                 ESym (b "t/l") (b "a/b/f"); EReg (b "t/l") 9%N 420%N];
+                 ESym (b "t/l") (b "a/b/f"); EReg (b "t/l") 9%N 420%N; ESym (b "t/k") (b "a/b/s/../x")];
    PBlob (b "t/a/new") 10%N; PBlob (b "old") 11%N].
 
 Lemma ordinary_ok :
   snd (run0 cfg_fixed os_ordinary) = [true; true; true] /\
-  view_at (fst (run0 cfg_fixed os_ordinary)) [b "r"; b "w"; b "t"; b "a"; b "b"; b "f"] = VFile (enc 9 384) /\
+  view_at (fst (run0 cfg_fixed os_ordinary)) [b "r"; b "w"; b "t"; b "a"; b "b"; b "f"] = VFile (enc 8 384) /\
+  view_at (fst (run0 cfg_fixed os_ordinary)) [b "r"; b "w"; b "t"; b "l"] = VFile (enc 9 420) /\
+  view_at (fst (run0 cfg_fixed os_ordinary)) [b "r"; b "w"; b "t"; b "k"] = VSym (b "a/b/s/../x") /\
   view_at (fst (run0 cfg_fixed os_ordinary)) [b "r"; b "w"; b "old"] = VFile (enc 11 104).
 Proof.
   vm_compute. repeat split.
@@ -1038,7 +1091,7 @@ Qed.
 
 (* all five attacks are refused or harmless on the repaired store *)
 Lemma attacks_confined_fixed :
-  forall os, In os [os_hardlink_cwd; os_raw_target; os_title_through_link; os_abs_title; os_hardlink_symlink] ->
+  forall os, In os [os_hardlink_cwd; os_raw_target; os_raw_target_blob; os_title_through_link; os_abs_title; os_hardlink_symlink] ->
   forall p, inside wd0 p = false -> view_at (fst (run0 cfg_fixed os)) p = view_at fs0 p.
 Proof.
   intros os Hin p Hp. unfold run0.
@@ -1056,8 +1109,7 @@ Proof.
   destruct (existsb (str_eqb title) (st_names s)); [reflexivity|].
   destruct (write_path g wd title) as [raw|] eqn:EW; [|reflexivity].
   apply write_path_lex in EW as [Hin ->].
-  destruct (mkdir_all (st_fs s) raw 511) as [f1|]; [|reflexivity].
-  match goal with |- snd (if negb ?c then _ else _) = _ => destruct c end; cbn [negb]; [|reflexivity].
+  match goal with |- snd (match ?m with Some _ => _ | None => _ end) = _ => destruct m as [f1|] end; [|reflexivity].
   pose proof (extract_stops g pres cwd (lex_loc wd title) title e es2 es1 f1
                 (fun f0 => entry_outside_rejected g pres wd cwd title f0 e Hin He)) as Hs.
   destruct (extract g pres cwd (lex_loc wd title) title f1 (es1 ++ e :: es2)) as [f2 ok]. simpl in *. exact Hs.
@@ -1084,10 +1136,6 @@ Proof.
     + injection E as <- _. reflexivity.
     + injection E as <- <- _. reflexivity.
     + apply (f_equal (@length _)) in E. simpl in E. rewrite app_length in E. lia.
-  - intros p d a cs H. unfold lookup, fs1 in H. cbn [ents lookup_ents] in H.
-    repeat match type of H with
-           | (if ?c then _ else _) = _ => destruct c; [discriminate|]
-           end. discriminate.
   - intros p q i Hp Hq. unfold lookup, fs1 in Hp, Hq. cbn [ents lookup_ents] in Hp, Hq.
     repeat match type of Hp with
            | (if path_eqb ?k p then _ else _) = _ =>
@@ -1110,7 +1158,7 @@ Qed.
 Definition os_replace_wd : list pushop := [PDir (b ".") [ESym (b ".") (b "w/x")]].
 
 Lemma refuted_replace_wd :
-  lookup (st_fs (fst (pushes (mkCfg true true true true true false) false wd0 cwd0 (mkStore fs1 []) os_replace_wd))) wd0
+  lookup (st_fs (fst (pushes (mkCfg true true false true true) false wd0 cwd0 (mkStore fs1 []) os_replace_wd))) wd0
   <> Some NDir.
 Proof. vm_compute. discriminate. Qed.
 
@@ -1125,6 +1173,6 @@ Definition os_remode : list pushop :=
 
 Lemma refuted_remode :
   inside wd0 [b "r"] = false /\
-  view_at (st_fs (fst (pushes (mkCfg true false true true true true) true wd0 cwd0 (mkStore fs0 []) os_remode))) [b "r"]
+  view_at (st_fs (fst (pushes (mkCfg true true true false true) true wd0 cwd0 (mkStore fs0 []) os_remode))) [b "r"]
   <> view_at fs0 [b "r"].
 Proof. split; [vm_compute; reflexivity | vm_compute; discriminate]. Qed.
